@@ -287,6 +287,15 @@ func findSites(src string, lex []reflex.Lexeme) []site {
 				add("remove-blank", "after:"+lex[i-1].Kind()+",before:"+lex[i+1].Kind(), i, edit{l.Off, len(l.Text), ""}, false, false)
 			}
 		}
+		// a line end INSIDE a multi-line lexeme (raw string, block comment) is a line end of the file too:
+		// a file saved with CRLF has it there as well (Go discards the carriage return in a raw string)
+		if (l.Type == reflex.StringLiteral || l.Type == reflex.Comment) && strings.Contains(l.Text, "\n") {
+			for k := 0; k < len(l.Text); k++ {
+				if l.Text[k] == '\n' && (k == 0 || l.Text[k-1] != '\r') {
+					add("crlf", "inside:"+l.Kind(), i, edit{l.Off + k, 1, "\r\n"}, false, false)
+				}
+			}
+		}
 		if isTok(l) {
 			add("block-comment", kindOf(lex, i, false), i, edit{l.Off, 0, "/* c */"}, false, false)
 			if i > 0 && isTok(lex[i-1]) && l.Type != reflex.Newline && lex[i-1].Type != reflex.Newline &&
